@@ -1031,7 +1031,7 @@ func (e *Env) call(n *ast.CallExpr) tv {
 	case "sameSlice":
 		return tv{valEq(arg(0), arg(1)), nil}
 	case "errIs":
-		a, ok1 := arg(0).V.(IfaceV)
+		a, ok1 := e.asIface(arg(0)) // also a non-interface error value such as syscall.EINVAL
 		b, ok2 := e.asIface(arg(1))
 		if !ok1 || !ok2 {
 			evalFail("errIs expects two error values")
